@@ -14,6 +14,9 @@ class NotConvertible(Exception):
 _MODS = {0: "", 2: "_", 4: "@", 8: "$", 16: "!"}
 
 
+KEEP_GROUPS = False
+
+
 def conv(e) -> tuple:  # noqa: PLR0911, PLR0912
     n = type(e).__name__
     tag = getattr(e, "tag", None)
@@ -22,9 +25,9 @@ def conv(e) -> tuple:  # noqa: PLR0911, PLR0912
         return ("tag", tag, x) if tag else x
 
     if n == "String":
-        return ("str", e.value)
+        return t(("str", e.value))
     if n == "CIString":
-        return ("istr", e.value)
+        return t(("istr", e.value))
     if n == "Range":
         return t(("range", e.start, e.stop))
     if n == "Identifier":
@@ -40,6 +43,8 @@ def conv(e) -> tuple:  # noqa: PLR0911, PLR0912
     if n in ("ASCIIRule", "BuiltInRule", "UnicodePropertyRule"):
         return ("builtin", e.name)
     if n == "Group":
+        if KEEP_GROUPS:
+            return t(("group", conv(e.expression)))
         return t(conv(e.expression))
     if n == "Sequence":
         return ("seq", *[conv(x) for x in e.expressions])
